@@ -1133,6 +1133,10 @@ class TransformSet:
             to_instrument=captures,
             set_conformer=self.set_conformer,
         )
+        # Only the code of this variant is used (it is installed in the
+        # target function): the function object itself must not be found
+        # when looking for the functions that share that code.
+        transformed.__ptera_discard__ = True
         return self._register(captures, transformed)
 
 
